@@ -319,3 +319,109 @@ func cmdNames(args []string) {
 	}
 	fmt.Println(len(out), "functions recorded")
 }
+
+
+// renamedFuncs: contract name -> the function now standing in its place. A contract whose
+// function no longer exists is bound to the one function of the same package that has no
+// contract of its own, the same signature and exactly the recorded shape (parameter names, named
+// locals with their types, loop labels): a pure renaming of a helper then does not unbind its
+// contract (and those of the functions that call it).
+var renamedFuncs = map[string]string{}
+
+func resolveRenamedFuncs(ld *Loaded) {
+	renamedFuncs = map[string]string{}
+	if ld == nil || ld.Prog == nil {
+		return
+	}
+	idx := funcIndex(ld.Prog)
+	sameShape := func(a, b fnNames) bool {
+		if len(a.Params) != len(b.Params) || len(a.FreeVars) != len(b.FreeVars) || len(a.Locals) != len(b.Locals) || len(a.Loops) != len(b.Loops) {
+			return false
+		}
+		for i := range a.Params {
+			if a.Params[i] != b.Params[i] {
+				return false
+			}
+		}
+		for i := range a.Locals {
+			if a.Locals[i] != b.Locals[i] {
+				return false
+			}
+		}
+		for i := range a.Loops {
+			if a.Loops[i] != b.Loops[i] {
+				return false
+			}
+		}
+		return true
+	}
+	var names []string
+	for _, n := range ld.DB.Order {
+		names = append(names, n)
+	}
+	for _, name := range names {
+		fc := ld.DB.Funcs[name]
+		if fc == nil || fc.Assumed || strings.HasPrefix(fc.RelName, "interface ") || strings.Contains(name, "$") {
+			continue
+		}
+		if idx[name] != nil {
+			continue
+		}
+		base, ok := baselineNames[name]
+		if !ok {
+			continue
+		}
+		var cands []*ssa.Function
+		for fname, f := range idx {
+			if f.Pkg == nil || f.Pkg.Pkg.Path() != fc.Pkg || f.Parent() != nil || f.Synthetic != "" || len(f.Blocks) == 0 {
+				continue
+			}
+			if ld.DB.Funcs[fname] != nil {
+				continue
+			}
+			if _, known := baselineNames[fname]; known {
+				continue
+			}
+			// methods stay methods of the same receiver type
+			if recvPrefix(name) != recvPrefix(fname) {
+				continue
+			}
+			if sameShape(base, currentNames(f)) {
+				cands = append(cands, f)
+			}
+		}
+		if len(cands) != 1 {
+			continue
+		}
+		now := cands[0].String()
+		renamedFuncs[name] = now
+		ld.DB.Funcs[now] = fc
+		baselineNames[now] = base
+		// the function's closures keep their ordinals
+		for _, n2 := range names {
+			if strings.HasPrefix(n2, name+"$") {
+				n2now := now + n2[len(name):]
+				if idx[n2now] != nil && ld.DB.Funcs[n2now] == nil {
+					renamedFuncs[n2] = n2now
+					ld.DB.Funcs[n2now] = ld.DB.Funcs[n2]
+					if b2, ok := baselineNames[n2]; ok {
+						baselineNames[n2now] = b2
+					}
+				}
+			}
+		}
+	}
+	if len(renamedFuncs) > 0 {
+		funcIdxAlias(ld.Prog, renamedFuncs)
+	}
+}
+
+// recvPrefix: "(*pkg.T)." for a method name, "" for a function.
+func recvPrefix(name string) string {
+	if strings.HasPrefix(name, "(") {
+		if i := strings.Index(name, ")."); i > 0 {
+			return name[:i+2]
+		}
+	}
+	return ""
+}
